@@ -8,6 +8,7 @@ HEADER = '''use vstd::prelude::*;
 use vstd::arithmetic::power::*;
 use vstd::arithmetic::div_mod::*;
 use vstd::arithmetic::mul::*;
+use vstd::std_specs::cmp::OrdSpec;
 verus! {
 '''
 FOOTER = '\n} // verus!\nfn main() {}\n'
@@ -26,6 +27,7 @@ def build(repo, findings):
     u.raw('}\n')
     u.add(ar.item(r'^pub enum EvalError ', 'EvalError').r1())
     u.add(ar.item(r'^const MAX_VARIABLE_DEREF_DEPTH', 'MAX_VARIABLE_DEREF_DEPTH').r1())
+    u.prelude('std/int_ops.rs')
     u.prelude('arith/pow_lemmas.rs')
     u.prelude('arith/eval_spec.rs')
 
@@ -58,7 +60,7 @@ def build(repo, findings):
     p.before(r'^\s*result$', 'proof { lemma_pow_acc(1, b0, e0); assert(1 * pow(b0 as int, e0 as nat) == pow(b0 as int, e0 as nat)) by (nonlinear_arith); }')
     u.add(p)
     u.raw(FOOTER)
-    u.assume('assume_specification', 'i64::wrapping_neg / wrapping_div / wrapping_rem equal their closed forms (discharged against real std by Kani over the full i64 x i64 domain in the thorough tier)')
+    u.assume('assume_specification', 'std integer methods without a vstd spec (contracts/std/int_ops.rs: wrapping_neg/div/rem, saturating_*, checked_shl/shr, ...) equal their closed forms; discharged against real std by Kani over the full domain in the thorough tier')
     u.assume('external_body', 'Shell is opaque; deref_lvalue and assign are stubs with uninterpreted semantics deref_sem / assign_sem (their bodies — Cow, closures, environment, recursive evaluation of variable contents — are NOT verified); derived Clone of ArithmeticTarget returns an equal value')
     u.assume('uninterp', 'Shell::st (abstract variable store), deref_sem, assign_sem')
     u.expected_min_fns = 10
